@@ -76,6 +76,30 @@ def cmd_worksq(n, tag):
     return Cmd(line, check, cell=(tag + '-sq', n), prop='C20')
 
 
+FORMS = ('vv', 'vr', 'rv', 'chk', 'int', 'intas', 'prod', 'prodv')
+SQFORMS = ('pow2', 'pow2v', 'powb2', 'ipow2')
+
+
+def cmd_workf(form, n, tag):
+    """the product (or, for the pow forms, the square) requested through another public route"""
+    a, b = dense(n, 1), dense(n, 2)
+    wd = digest(a * a if form in SQFORMS else a * b)
+    line = 'workf %s %s %s' % (form, U(a), U(b))
+
+    def check(res):
+        out = []
+        w = res.val(0)
+        d = res.pos[1]
+        if d == 'P':
+            return [Problem({'C20', 'C02', 'C14'}, 'workf %s: multiplication panicked' % form, '')]
+        if d != wd:
+            out.append(Problem({'C02'}, 'workf %s: wrong product' % form, 'n=%d' % n))
+        _W[(tag + '-' + form, n, n)] = w
+        return out
+
+    return Cmd(line, check, cell=(tag + '-' + form, n), prop='C20')
+
+
 BAL = [256, 512, 1024, 2048, 4096, 8192, 16384]
 UNB = [(n, m) for n in (64, 256, 300, 1024) for m in (2 * n - 1, 2 * n, 64 * n)]
 
@@ -133,7 +157,15 @@ def stages(tier, seed):
     dsz = [256, 512, 1024, 2048, 4096]
     dun = [(n, m) for n, m in UNB if n * m <= 300 * 64 * 300]
     dbg = [cmd_work(n, n, 'dbg') for n in dsz] + [cmd_work(n, m, 'dbg') for n, m in dun]
-    return [dict(label='rel', variant='rel', groups=[rel], floors=['MulToom3', 'MulKaratsuba', 'MulHalfKaratsuba']),
+    fsz = [1024, 2048, 4096]
+    rel += [cmd_workf(f, n, 'rel') for f in FORMS + SQFORMS for n in fsz]
+    # the configurations without std (the dispatch must not depend on the feature set)
+    nostd = [cmd_work(n, n, 'nostd') for n in dsz] + [cmd_work(n, m, 'nostd') for n, m in dun] + [cmd_worksq(n, 'nostd') for n in dsz]
+    extra = [dict(label='analyse-rel-form-' + f, custom=(lambda f=f: analyse('rel-' + f, fsz, []))) for f in FORMS + SQFORMS]
+    extra += [dict(label='nostd-rel', variant='nostd-rel', groups=[nostd]),
+              dict(label='analyse-nostd', custom=lambda: analyse('nostd', dsz, dun)),
+              dict(label='analyse-nostd-squares', custom=lambda: analyse('nostd-sq', dsz, []))]
+    return extra_first(extra, [dict(label='rel', variant='rel', groups=[rel], floors=['MulToom3', 'MulKaratsuba', 'MulHalfKaratsuba']),
             dict(label='analyse-rel', custom=lambda: analyse('rel', BAL, UNB)),
             dict(label='analyse-rel-squares', custom=lambda: analyse('rel-sq', BAL, [])),
             dict(label='analyse-rel-mul_assign', custom=lambda: analyse('rel-as', BAL, [])),
@@ -144,4 +176,9 @@ def stages(tier, seed):
             dict(label='analyse-rel-sparse_x_dense', custom=lambda: analyse('rel-sd', BAL, [], ratio=False)),
             dict(label='analyse-rel-sparse_x_sparse', custom=lambda: analyse('rel-ss', BAL, [], ratio=False)),
             dict(label='dbg', variant='dbg', groups=[dbg]),
-            dict(label='analyse-dbg', custom=lambda: analyse('dbg', dsz, dun))]
+            dict(label='analyse-dbg', custom=lambda: analyse('dbg', dsz, dun))])
+
+
+def extra_first(extra, base):
+    """base stages first (the rel run fills the counters the form analyses read), then the extra ones"""
+    return base[:1] + [e for e in extra if e['label'].startswith('analyse-rel-form-')] + base[1:] + [e for e in extra if not e['label'].startswith('analyse-rel-form-')]
